@@ -79,6 +79,9 @@ pub enum Action {
     /// Compact n's storage up to (applied - back).
     Compact { n: NodeId, back: u64 },
     SetKnob { n: NodeId, knob: Knob },
+    /// What-if calls of Changer::simple / enter_joint / leave_joint with a seeded change list on n's current tracker (C12);
+    /// the tracker is not modified.
+    ConfExercise { n: NodeId, seed: u64 },
     /// What-if sequence of legal MemStorageCore mutations on a scratch copy of n's storage state (C19).
     StorageExercise { n: NodeId, seed: u64 },
     StorageFault { n: NodeId, log_unavailable: bool, snap_unavailable: bool },
